@@ -168,3 +168,56 @@ NOT_APPLICABLE = {f"C{n:02d}": PENDING for n in range(1, 21)}
 
 NOTES = ("All checks are solver-based (CBMC) over the real sources; see DESIGN.md. Exit 0 = all obligations UNSAT inside the stated bounds; "
          "exit 1 = counterexample (VIOLATION line when the native replay reproduces it); exit 2 = check broken on this tree.")
+
+# ---- second build round: claims extended to what is built now (applied to the joined strings above)
+def _rep(k, field, a, b):
+    assert a in CLAIMS[k][field], (k, field, a[:50])
+    CLAIMS[k][field] = CLAIMS[k][field].replace(a, b, 1)
+_rep("C02", "text", "Kernel-level part only: for each signature", "(b) Byte-order conversion: for each signature")
+_rep("C02", "text", "memory-safety checks and dbus assertions on.", "memory-safety checks and dbus assertions on. (c) Construction: for 18 value-tree shapes (basic values, strings, structs, arrays incl. empty ones, "
+     "dict entries, variants) in both byte orders, with every value symbolic, what the real DBusTypeWriter (the machinery behind dbus_message_iter_append_* / open_container / close_container) produces "
+     "equals an independent encoder's output byte for byte, records exactly the signature written, is accepted by the real validator and reads back unchanged through the real DBusTypeReader.")
+CLAIMS["C02"]["note"] = ("Found and fixed F7 (CVE-2022-42012). NOT covered: the dbus_message_* wrappers around the writer (argument checks, locking), header creation (header edits are C12), "
+     "dbus_message_copy. The validator step of (c) is skipped for arrays of variable-size elements (no verdict). DBusString storage in (c) comes from fixed pool buffers (R19).")
+_rep("C03", "note", "The byte-level effect of the header edits is C12's subject and is not covered.", "The byte-level effect of the three sanitising edits is checked by re-running the C12 header-edit jobs "
+     "for stripping unknown fields (codes 11..255, incl. >= 128), deleting CONTAINER_INSTANCE and setting SENDER (group C03.d).")
+_rep("C05", "text", "the transaction is executed xor cancelled exactly once.", "the transaction is executed xor cancelled exactly once; and (completeness) a unicast message that nothing refused is staged for "
+     "the owner exactly once and the transaction executed, whatever the state of the sender's socket.")
+_rep("C07", "text", "disconnect drops exactly the owner's rules.", "disconnect drops exactly the owner's rules; AddMatch stores one more entry even when an equal rule exists. Rule text: the value-quoting "
+     "kernel find_value equals the specification's quoting rules on every value text of 1..7 bytes; tokenize_rule returns every key/value pair of texts with 1..80 pairs or refuses the text; the RemoveMatch "
+     "handler stages no success reply when it fails with a real error.")
+_rep("C07", "note", "Not covered: rule text grammar (C07.c not built), per-interface hash pools (R7).", "Found and fixed in the second round: F13 (RemoveMatch of an absent rule acked), F14 (backslash quoting), "
+     "F19 (rules truncated after 16 pairs). Not covered: key-level grammar of whole rule strings (per-key validation, argN number syntax), per-interface hash pools (R7).")
+_rep("C08", "text", "fd passing agreed only after OK.", "fd passing agreed only after OK; waiting-for-DATA implies a selected mechanism. DBUS_COOKIE_SHA1: on real DBusStrings, the second client response is answered OK "
+     "exactly when its hash equals the whole digest for a valid cookie and a non-empty client challenge (60 payload shapes + scanner contract). Transport gate: one socket_handle_watch / socket_do_iteration step "
+     "never puts socket data into the message loader before authentication.")
+CLAIMS["C08"]["note"] = ("DBusString / DBusCredentials are ghost-modelled in the step job; SHA-1 itself, keyring files, the first cookie response, the line splitter and the 16 KiB buffering bound are outside the claim. "
+     "Found and fixed F11 (assertion abort on 'AUTH \\nx').")
+_rep("C10", "text", "Composite of the corresponding jobs, re-run.", "Also: the transport skeletons (a corrupt stream disconnects that transport after delivering the complete messages before it; nothing is read into the "
+     "loader before authentication) and the expiry of incomplete connections (a peer that has not completed Hello within auth_timeout is closed whether or not it authenticated; 6 concrete time configurations). "
+     "Composite of the corresponding jobs, re-run.")
+_rep("C11", "text", "(self-composition, per signature shape).", "(self-composition, per signature shape); L2 — the loader loop consumes exactly header+body bytes per frame and corruption is sticky; L4 — the transport hands "
+     "every framed message to the connection, in order, before it disconnects for corruption, and moves leftover handshake bytes into the loader exactly once, first; L5 — one socket step never reads into the loader "
+     "before authentication nor ahead of the handshake leftovers.")
+CLAIMS["C11"]["note"] = "A direct multi-chunk run through the heap-string loader is out of reach. The induction over chunks is an argument in DESIGN.md."
+_rep("C13", "text", "below the limit it is unaffected.", "below the limit it is unaffected. Connections: after a Hello that bus_connections_check_limits admitted and bus_connection_complete completed, the completed count "
+     "and the per-user count are within max_completed_connections / max_connections_per_user.")
+_rep("C13", "note", "Not covered: completed / per-user / incomplete connection limits (bus_connection_complete drags in login-info string building and the listener watch machinery), <limit> parsing.",
+     "Not covered: max_incomplete_connections (accept loop), <limit> parsing. Found and fixed F17.")
+_rep("C14", "text", "a retry succeeds with the reference result.", "a retry succeeds with the reference result. Library side: DBusString replace_len / copy_len / insert_bytes on real heap strings, and header edits "
+     "(set / delete field, strip unknown fields), with one failing allocation: a failed edit leaves every byte, the length and the padding as they were and succeeds on retry. Connection completion (Hello) with any "
+     "single failing step leaves lists, counters, name, policy and the per-user count unchanged.")
+CLAIMS["C14"]["note"] = ("Single faults only. Message building / copying, match-rule and configuration parsing, AddMatch and routed messages under OOM are not covered (except: dispatch skeleton shows NoMemory => cancel, "
+     "never execute). Found and fixed F15, F17; known findings F8, F10, F16 (strip not atomic), F18 (Hello not atomic after completion).")
+_rep("C15", "text", "Library receive path only: the real", "Receive path: the real")
+_rep("C15", "text", "exactly the announced number moves from the loader to the message.", "exactly the announced number moves from the loader to the message. Send path: the real do_writing sends a message's "
+     "descriptors with exactly the write that starts at byte 0 and with no continuation write, for any split into partial writes. Pending-fd timer: armed exactly while descriptors are pending, never restarted while "
+     "they stay pending, and its expiry closes the connection.")
+_rep("C15", "note", "message finalisers, pending-fd timeout and per-connection limit, the send path;", "message finalisers, per-connection fd limits;")
+_rep("C16", "text", "nothing is sampled.", "nothing is sampled. The public dbus_validate_* functions give the same verdicts on every C string of up to 6 bytes; the RequestName route accepts valid names up to 255 bytes.")
+_rep("C17", "text", "Sequential core only: the real pending-call machinery", "Sequential core: the real pending-call machinery")
+_rep("C17", "text", "serials are non-zero and consecutive ones distinct.", "serials are non-zero and consecutive ones distinct. Close: after nothing / a reply / a timeout / a cancel, the peer closing runs the real "
+     "notify-disconnected path: no call completes twice, nothing stays outstanding. Blocking wait: the real _dbus_connection_block_pending_call under 19 peer scripts with a symbolic clock returns only with the call "
+     "completed exactly once — by the reply if one arrived, by a local NoReply only after a finite timeout elapsed (never for an infinite one), by a local error if the peer closed.")
+CLAIMS["C17"]["note"] = ("Threads and real interleavings are outside: the schedule quantifier is reduced to atomic steps under the connection lock, which a ghost lock checks for balance only; the blocking wait is "
+     "single-threaded. Known finding F12: calls observed by notify or polling never complete when the peer closes. Hash table = 2-slot map keeping the signed/unsigned key distinction, messages = ghost records.")
